@@ -119,7 +119,7 @@ def merge(results):
 
 
 def write_replay(prop, v):
-    d = os.path.join(VERIF, "replays", prop)
+    d = os.path.join(os.environ.get("VERIF_REPLAY_DIR", os.path.join(VERIF, "replays")), prop)
     os.makedirs(d, exist_ok=True)
     blob = json.dumps(v, sort_keys=True, indent=1)
     h = hashlib.sha1(blob.encode()).hexdigest()[:12]
